@@ -26,7 +26,7 @@ CHECKS = {
                 text="TLC checks that the implementation-shaped bounded walk and the declarative five-most-recent rule agree in every state of a model with chains up to 7; every AddSnapshot edge (every chain length x snapshot position x requested version) is executed on the real code and judged, plus random histories with long chains.",
                 note=SEQ_NOTE),
     "C11": dict(cat="model_checking", ref="6/C11", engine="SEQ", technique="TLC model checking + all-transition replay + TLC trace validation (C11_Step/C11_State/C11_Walk over a ghost snapshot record)",
-                text="The ghost records the last snapshot the C10 rule accepts; every GetSnapshot answer (id and payload token from the same upload) and the stored snapshot are compared with it by TLC on every step; a GetChildVersion walk from the snapshot version must reach the latest version without gone. Schedules are covered by the C03 check.",
+                text="The ghost records the last snapshot the C10 rule accepts; every GetSnapshot answer (id and payload token from the same upload) and the stored snapshot are compared with it by TLC on every step; a GetChildVersion walk from the snapshot version must reach the latest version without gone. Schedules are covered by the C03 check. GetSnapshot under storage faults (every storage call and I/O call of the request fails): an answer that is not an error must be the right one (C11f). Aborted and refused snapshot uploads never become the served snapshot.",
                 note=SEQ_NOTE),
     "C18": dict(cat="model_checking", ref="6/C18", engine="SEQ", technique="TLC model checking + all-transition replay + TLC trace validation (C18_Step: full state of all clients equal before/after)",
                 text="Every self-loop edge of the model (reads, conflicts, declined snapshots, reopen) is executed on both backends; the complete projected state of all clients (plus raw SQLite rows) before and after is compared by TLC.",
@@ -37,10 +37,10 @@ HTTP_NOTE = ("Trusted: TLC/JVM; in-process actix service built from WebServer::c
              "one concrete spelling per grammar form; payload tokens by exact byte match. Syntactically invalid HTTP is answered below the application and is not claimed.")
 CHECKS.update({
     "C03": dict(cat="model_checking", ref="6/C03", engine="CONC", technique="TLC model checking of SyncStorage (request programs at storage-call granularity, lock, both backend semantics) + replay of model schedules + gate-level exhaustive exploration on the real code + TLC trace validation of recorded rounds (linearizability, ConcProps)",
-                text="TLC explores all interleavings of 2-3 request programs over seed states and checks mutual exclusion and linearizability (the create-then-add of a new client as two units); a sample of the terminal schedules, a bounded-exhaustive depth-first exploration over 'which parked request passes its storage call next' for all request pairs, and seeded random triples run on the real handlers/library under a gating Storage wrapper (in-memory, one SQLite object, two SQLite objects on one directory); TLC judges every recorded round.",
+                text="TLC explores all interleavings of 2-3 request programs over seed states and checks mutual exclusion and linearizability (the create-then-add of a new client as two units); a sample of the terminal schedules, a bounded-exhaustive depth-first exploration over 'which parked request passes its storage call next' for all request pairs, and seeded random triples run on the real handlers/library under a gating Storage wrapper (in-memory, one SQLite object, two SQLite objects on one directory); TLC judges every recorded round. Stress rounds in which every request's server owns its SqliteStorage object itself (no harness wrapper, no gates, four requests started together) are judged the same way; the recorded storage calls of the gated rounds are replayed as actions of the SyncStorage model (TraceStorage).",
                 note="Trusted: TLC/JVM, the gating wrapper (public Storage trait) and its log order (sequence numbers under one mutex; acquired logged after txn() returns, release before the drop). Requests are threads of one process; a blocked txn() is recognised by a grace period, timing never decides a verdict. Bounds: pairs exhaustively up to a round cap, triples sampled."),
     "C09": dict(cat="model_checking", ref="6/C09", engine="LOCK+SEQ", technique="two-run non-interference on the real code judged by TLC (TraceLockstep) + C09_Step predicate on all SEQ traces (TLC model checking + trace validation)",
-                text="Each seeded multi-client history (arguments deliberately quoting other clients' ids) is projected onto each client and re-run alone on a fresh server; TLC compares the client's responses and own state pair by pair (oracle: the code's own solo behaviour). In addition the C09 step predicate (other clients' state untouched, no foreign id/payload in a response) is checked by TLC on the model and on every step of the tours and histories.",
+                text="Each seeded multi-client history (arguments deliberately quoting other clients' ids) is projected onto each client and re-run alone on a fresh server; TLC compares the client's responses and own state pair by pair (oracle: the code's own solo behaviour). In addition the C09 step predicate (other clients' state untouched, no foreign id/payload in a response) is checked by TLC on the model and on every step of the tours and histories. Histories with other clients' uploads IN FLIGHT (interleaved chunked uploads over real sockets, Overlap steps) are part of the two-run comparison, and their socket steps are replayed against spec/SyncUpload.tla (NoHolding: a request is served while another upload is in flight).",
                 note=SEQ_NOTE),
     "C12": dict(cat="model_checking", ref="6/C12", engine="URG+SEQ", technique="TLC model checking of the threshold rule (MC_Urgency, incl. BigNat vs native) + grid of real add_version calls judged by TLC with BigNat arithmetic (TraceUrg) + counter/urgency predicates on all SEQ traces",
                 text="MC_Urgency checks thresholds, monotonicity and the BigNat arithmetic exhaustively for small values; a grid of targets (0, 1, odd, u32/i64 extremes) x measures around both thresholds is executed as one real add_version each (state set through the public storage API) and judged by TLC with BigNat; the versions-since counter and the reported urgency are checked on every step of the SEQ runs on both backends.",
@@ -49,28 +49,28 @@ CHECKS.update({
                 text="Every tour covering the transitions of the bounded model, and seeded random histories, run on the in-memory backend, on SQLite and on SQLite with a real close/reopen at the model's Reopen edges; TLC compares canonical events index by index.",
                 note=SEQ_NOTE),
     "C14": dict(cat="model_checking", ref="6/C14", engine="HTTP", technique="replay of every model transition through the HTTP handlers with a library twin on a twin storage in lock step; TLC trace validation with the Encode predicate of spec/SyncHttp.tla",
-                text="Every transition of the bounded model is executed through the real HTTP handlers while the protocol library executes the same request on a twin storage; TLC checks that status, presence/absence and values of X-Version-Id / X-Parent-Version-Id / X-Snapshot-Request, content type and body carry exactly the twin's outcome and that both storages end in the same state.",
+                text="Every transition of the bounded model is executed through the real HTTP handlers while the protocol library executes the same request on a twin storage; TLC checks that status, presence/absence and values of X-Version-Id / X-Parent-Version-Id / X-Snapshot-Request, content type and body carry exactly the twin's outcome and that both storages end in the same state. The same with 36 sets of request headers that have no protocol meaning, and with payloads around actix's extractor limits.",
                 note=HTTP_NOTE),
     "C15": dict(cat="exploration", ref="6/C15", engine="HTTP", technique="TLC enumerates the request grammar of spec/SyncHttp.tla completely (<=2 deviations from the well-formed baseline); every request is sent to the real handlers; TLC trace validation (C15_Step)",
-                text="The grammar (route x method x client-id form x path-id form x content-type form x body size x chunking) is enumerated by TLC with its classifier (malformed / either / well-formed); each request is concretised and sent to servers holding non-trivial state on both backends, incl. bodies of limit-1, limit, limit+1 bytes single and multi chunk; TLC checks 4xx-and-unchanged for malformed, never 5xx, accepted up to the limit.",
+                text="The grammar (route x method x client-id form x path-id form x content-type form x body size x chunking) is enumerated by TLC with its classifier (malformed / either / well-formed); each request is concretised and sent to servers holding non-trivial state on both backends, incl. bodies of limit-1, limit, limit+1 bytes single and multi chunk; TLC checks 4xx-and-unchanged for malformed, never 5xx, accepted up to the limit. Upload cases also over a real socket (Content-Length / chunked framing, corrupt chunk headers); 36 sets of meaningless request headers must not change a request's class.",
                 note=HTTP_NOTE),
     "C16": dict(cat="model_checking", ref="6/C16", engine="HTTP", technique="TLC model checking of spec/SyncAllow.tla (allow-list over the protocol model) + replay of every transition through the HTTP handlers with a library twin + TLC trace validation (C16_Step incl. zero storage transactions)",
                 text="The allow-list model (lists = all subsets of the clients, reconfiguration on existing data) is explored by TLC; every transition runs through the real handlers: unlisted => 403, no storage transaction begun (counting Storage wrapper), state unchanged, on all four endpoints; listed => identical to the library twin without a list; malformed ids under a list come from the grammar.",
                 note=HTTP_NOTE),
     "C20": dict(cat="exploration", ref="6/C20", engine="HTTP", technique="TLC trace validation (C20_Step) over all HTTP-level explorations: model tours, allow-list tours, request grammar",
-                text="Every HTTP exchange produced by the tour, allow-list and grammar explorations (all routes, methods, outcomes, refusals, unknown routes) is checked by TLC for a Cache-Control header with a no-store directive; evidence counts distinct (route, method, status, outcome) combinations.",
+                text="Every HTTP exchange produced by the tour, allow-list and grammar explorations (all routes, methods, outcomes, refusals, unknown routes) is checked by TLC for a Cache-Control header with a no-store directive; evidence counts distinct (route, method, status, outcome) combinations. Request headers without a protocol meaning (content negotiation, conditionals, ranges, cache directives, proxies, CORS; 36 header sets) are added to requests of every route, in process and over a socket; storage outages supply 500 responses.",
                 note=HTTP_NOTE),
 })
 
 CHECKS.update({
     "C04": dict(cat="fault_enumeration", ref="6/C04", engine="CRASH", technique="TLC model checking of SyncStorage with the Crash action (Inv_C04) + enumeration of every file-system call as a crash point on the real code (process-kill images and power-loss images rebuilt from the I/O log) + TLC trace validation of the recovered state (Recovered event of spec/TraceSeq)",
-                text="Every write/truncate/sync/delete/create the database issues while a history runs (payloads from 1 B to 64 KiB/1 MiB, a second connection held open in part of the run so that WAL and checkpoints vary) is a crash point; the process-crash image (real kill before the call) and power-loss images (last synced content plus subsets of later writes) are opened by the real code in a fresh process; TLC checks integrity_check = ok, every acknowledged request present, the in-flight request all-or-nothing, chain and snapshot consistent, and a continuation of further requests.",
+                text="Every write/truncate/sync/delete/create the database issues while a history runs (payloads from 1 B to 64 KiB/1 MiB, a second connection held open in part of the run so that WAL and checkpoints vary) is a crash point; the process-crash image (real kill before the call) and power-loss images (last synced content plus subsets of later writes) are opened by the real code in a fresh process; TLC checks integrity_check = ok, every acknowledged request present, the in-flight request all-or-nothing, chain and snapshot consistent, and a continuation of further requests. Images whose write-ahead log is not empty are also restarted through the real executable first (it starts on a copy, serves a request, is killed), so that what main() does to the directory at start-up is part of recovery. The WAL protocol itself is modelled (WalDurability) and bound to the recorded file-system calls (TraceWal).",
                 note="Assumes directory operations durable in issue order, pwrite atomic (thorough adds torn last writes), tmpfs/kernel honour write+fsync; SQLite itself is exercised, not verified; the -shm file is not part of a power-loss image. Trusted: the LD_PRELOAD shim's I/O log is complete for the database files."),
     "C05": dict(cat="fault_enumeration", ref="6/C05", engine="FAULT", technique="TLC model checking of SyncStorage with Fail actions (Inv_C05; liveness under fairness in thorough) + enumeration of every storage call (trait level, before/after) and every I/O call (LD_PRELOAD shim, EIO/ENOSPC) of every request of the histories on the real code + TLC trace validation (C05_Round)",
-                text="For each request of two histories, through HTTP and library, a probe counts its storage calls and I/O calls; each one is then made to fail (before / after taking effect; EIO once / ENOSPC persistently; selected double faults). TLC judges: error or correct answer, success only with the change committed, state exactly before (or after, only when the failing step can have been the commit), three follow-up requests served correctly.",
+                text="For each request of two histories, through HTTP and library, a probe counts its storage calls and I/O calls; each one is then made to fail (before / after taking effect; EIO once / ENOSPC persistently; selected double faults). TLC judges: error or correct answer, success only with the change committed, state exactly before (or after, only when the failing step can have been the commit), three follow-up requests served correctly. Lock contention is a further fault class: the next k attempts to take SQLite's write lock are refused (fcntl on the -shm file), k around every multiple 1..6 of the number of attempts one transaction begin waits out. The follow-up requests go through the very server object that served the faulted request.",
                 note="SQLite backend. Trait-level faults through a gating wrapper implementing the public Storage trait; I/O-level faults at libc calls on the database files."),
     "C06": dict(cat="exploration", ref="6/C06", engine="BYTES", technique="seeded payload generator (lengths incl. every length of the page-boundary region, byte classes, chunk splittings) driven through library, in-process HTTP and a real socket; TLC trace validation over payload tokens (C06_Step)",
-                text="TLC decides the relational part (which upload's bytes and ids must come back) on every step; the byte level is supplied by the harness, which maps returned bytes to the token of the upload they equal exactly. Lengths 1..1 MiB+1 (100 MiB in thorough), seven byte classes, all split positions of short bodies and splits around 4096/65536, Content-Length and chunked transfer over a real socket, both backends, reopen.",
+                text="TLC decides the relational part (which upload's bytes and ids must come back) on every step; the byte level is supplied by the harness, which maps returned bytes to the token of the upload they equal exactly. Lengths 1..1 MiB+1 (100 MiB in thorough), seven byte classes, all split positions of short bodies and splits around 4096/65536, Content-Length and chunked transfer over a real socket, both backends, reopen. Uploads that break after the first piece must never be served. Overlapping uploads: 2-3 chunked uploads over their own connections to one in-process HttpServer (1 or 2 workers), pieces interleaved, other requests in between; the recorded socket steps are replayed as the actions of spec/SyncUpload.tla (TraceUpload; Integrity), whose invariants TLC checks (with two negative controls) and TLAPS proves for any number of requests/pieces/workers.",
                 note="TLC never sees bytes; 'all payloads' is a generator, not an enumeration."),
     "C17": dict(cat="exploration", ref="6/C17", engine="BIN", technique="trace validation of the unmodified executable: configurations drawn over flags/environment, HTTP over every listen address, SIGKILL + restart; TLC judges with model constants set from the configuration (spec/TraceSeq)",
                 text="The real binary (rebuilt from /repo into /verif/build) is started with drawn configurations (1-3 listen addresses incl. localhost and [::1], nested data dir, allow-list, snapshot targets, each by flag or env), driven over all addresses, killed and restarted twice; TLC checks every exchange against the protocol/urgency/allow-list predicates under the configured constants; data files must be in the configured directory only.",
